@@ -21,6 +21,7 @@ Act == \/ IsEvent("Open") /\ Open(E.a, E.f, E.n)
        \/ IsEvent("Write") /\ Write(E.a, E.f, E.c)
        \/ IsEvent("Close") /\ Close(E.a, E.f)
        \/ IsEvent("ServiceFile") /\ ServiceFile(E.a, E.n, E.c)
+       \/ IsEvent("CraftedFile") /\ CraftedFile(E.a, E.c)
 (* strict: the listing is exactly what the model predicts; monitor: the model runs alongside as the reference *)
 TraceNext == Reset \/ (Act /\ Seen /\ (Strict => fs' = LogFs /\ E.st.other = <<>>))
 TraceSpec == TraceInit /\ [][TraceNext]_tvars
